@@ -1,7 +1,7 @@
 """Ghost functions usable in contract text as G.<name>(...).  Each takes (engine, state, *values) and returns a value.
 Definitions are independent of the code under verification: they come from the property statements."""
 import z3
-from pyvc import V, INT, BOOL, BYTES, LIST, CLS, Outside
+from pyvc import V, INT, BOOL, BYTES, LIST, MAP, CLS, Outside
 from pyvc.spec import ContractSet
 
 GH = ContractSet()
@@ -111,3 +111,168 @@ _pred('ok_itself', [CLS('Block'), INT])
 _pred('ok_in_state', [CLS('Block'), CLS('CoinState')])
 _pred('summary_in_state', [CLS('BlockSummary'), CLS('CoinState')])
 _pred('applies', [CLS('CoinState'), CLS('Block')])
+
+
+# ---- C02 / C03: unspent sets -------------------------------------------------------------------------------------------
+
+def _utxo_sorts(eng):
+    from pyvc.types import to_sort, opt_sort, MAP
+    reg = eng.reg
+    RefS = to_sort(CLS('OutputReference'), reg)
+    OutS = to_sort(CLS('Output'), reg)
+    US = to_sort(MAP(CLS('OutputReference'), CLS('Output')), reg)
+    return RefS, OutS, US, opt_sort(OutS)
+
+
+@GH.ghost('spent_in')
+def spent_in(eng, st, r, ins, i):
+    """r is the reference of one of the first i inputs of the list `ins` (definition by prefix recursion)"""
+    from pyvc.types import to_sort
+    RefS, OutS, US, o = _utxo_sorts(eng)
+    InS = to_sort(LIST(CLS('Input')), eng.reg)
+    f = eng.uf('spent_in', RefS, InS, z3.IntSort(), z3.BoolSort())
+    Inp = eng.reg.classes['Input']
+    if 'spent_in' not in eng._ghost_defs:
+        eng._ghost_defs.add('spent_in')
+        rr = z3.Const('si!r', RefS)
+        ss = z3.Const('si!s', InS)
+        kk = z3.Int('si!k')
+        eng.axioms.append(z3.ForAll([rr, ss], z3.Not(f(rr, ss, 0)), patterns=[f(rr, ss, 0)]))
+        eng.axioms.append(z3.ForAll([rr, ss, kk], z3.Implies(z3.And(kk >= 0, kk < z3.Length(ss)),
+                                                             f(rr, ss, kk + 1) == z3.Or(f(rr, ss, kk), Inp.acc['output_reference'](ss[kk]) == rr)),
+                                    patterns=[f(rr, ss, kk + 1)]))
+        # witness form (proved by induction over the prefix length in lemma ghost.spent_in): if r is spent by the first
+        # n inputs then one of them, at position wit < n, carries it
+        w = eng.uf('spent_wit', RefS, InS, z3.IntSort(), z3.IntSort())
+        eng.axioms.append(z3.ForAll([rr, ss, kk], z3.Implies(
+            z3.And(kk >= 0, kk <= z3.Length(ss), f(rr, ss, kk)),
+            z3.And(0 <= w(rr, ss, kk), w(rr, ss, kk) < kk, Inp.acc['output_reference'](ss[w(rr, ss, kk)]) == rr)),
+            patterns=[f(rr, ss, kk)]))
+    rt, st_, it = eng.term(r, CLS('OutputReference'), st), eng.term(ins, LIST(CLS('Input')), st), eng.term(i, INT, st)
+    # unfold once on the occurring term (ground instance of the definition)
+    if not st.bound:
+        eng.add_func_axiom(z3.Not(f(rt, st_, z3.IntVal(0))))
+        eng.add_func_axiom(z3.Implies(z3.And(it - 1 >= 0, it - 1 < z3.Length(st_)),
+                                      f(rt, st_, it) == z3.Or(f(rt, st_, it - 1), Inp.acc['output_reference'](st_[it - 1]) == rt)))
+    return V(f(rt, st_, it), BOOL)
+
+
+@GH.ghost('total')
+def total(eng, st, m):
+    """total value of a finite unspent set.  A-MAPSUM: update laws of a sum over a finite map, instantiated on the
+    update chain of the occurring term"""
+    RefS, OutS, US, o = _utxo_sorts(eng)
+    Out = eng.reg.classes['Output']
+    tot = eng.uf('total', US, z3.IntSort())
+    mt = eng.term(m, MAP(CLS('OutputReference'), CLS('Output')), st)
+    eng.assumptions_used.add('A-MAPSUM')
+
+    def old_value(base, key):
+        cell = z3.Select(base, key)
+        return z3.If(o.is_some(cell), Out.acc['value'](o.val(cell)), 0)
+    t = mt
+    depth = 0
+    while z3.is_app(t) and t.decl().kind() == z3.Z3_OP_STORE and depth < 8:
+        base, key, val = t.arg(0), t.arg(1), t.arg(2)
+        new_value = z3.If(o.is_some(val), Out.acc['value'](o.val(val)), 0)
+        eng.add_func_axiom(tot(t) == tot(base) - old_value(base, key) + new_value)
+        t = base
+        depth += 1
+    if z3.is_app(t) and t.decl().kind() == z3.Z3_OP_CONST_ARRAY:
+        eng.add_func_axiom(tot(t) == 0)
+    return V(tot(mt), INT)
+
+
+@GH.ghost('uto_prefix')
+def uto_prefix(eng, st, U, txs, i):
+    """unspent set after the reward transaction and the first i other transactions of the list have been applied:
+    prefix recursion over the summary function of uto_apply_transaction"""
+    from pyvc.types import to_sort
+    RefS, OutS, US, o = _utxo_sorts(eng)
+    TxS = to_sort(CLS('Transaction'), eng.reg)
+    TL = to_sort(LIST(CLS('Transaction')), eng.reg)
+    f = eng.uf('uto_prefix', US, TL, z3.IntSort(), US)
+    step = eng.uf('uto_tx', US, TxS, z3.BoolSort(), US)
+    if 'uto_prefix' not in eng._ghost_defs:
+        eng._ghost_defs.add('uto_prefix')
+        uu = z3.Const('up!u', US)
+        tt = z3.Const('up!t', TL)
+        kk = z3.Int('up!k')
+        eng.axioms.append(z3.ForAll([uu, tt], f(uu, tt, 0) == step(uu, tt[0], z3.BoolVal(True)), patterns=[f(uu, tt, 0)]))
+        eng.axioms.append(z3.ForAll([uu, tt, kk], z3.Implies(kk >= 0, f(uu, tt, kk + 1) == step(f(uu, tt, kk), tt[1 + kk], z3.BoolVal(False))),
+                                    patterns=[f(uu, tt, kk + 1)]))
+    ut, tt_, it = eng.term(U, MAP(CLS('OutputReference'), CLS('Output')), st), eng.term(txs, LIST(CLS('Transaction')), st), eng.term(i, INT, st)
+    if not st.bound:
+        eng.add_func_axiom(f(ut, tt_, z3.IntVal(0)) == step(ut, tt_[0], z3.BoolVal(True)))
+        eng.add_func_axiom(z3.Implies(it - 1 >= 0, f(ut, tt_, it) == step(f(ut, tt_, it - 1), tt_[1 + (it - 1)], z3.BoolVal(False))))
+    return V(f(ut, tt_, it), MAP(CLS('OutputReference'), CLS('Output')))
+
+
+_pred('uto_tx_ok', [MAP(CLS('OutputReference'), CLS('Output')), CLS('Transaction'), BOOL])
+_pred('uto_block_ok', [MAP(CLS('OutputReference'), CLS('Output')), CLS('Block')])
+_pred('tx_fee_ok', [CLS('Transaction'), MAP(CLS('OutputReference'), CLS('Output'))])
+
+
+@GH.ghost('spent_in_witness')
+def spent_in_witness(eng, st, r, ins, n):
+    """instance of the witness form of spent_in (global axiom, induction proved by lemma ghost.spent_in)"""
+    from pyvc.types import to_sort
+    RefS, OutS, US, o = _utxo_sorts(eng)
+    InS = to_sort(LIST(CLS('Input')), eng.reg)
+    Inp = eng.reg.classes['Input']
+    spent_in(eng, st, r, ins, n)
+    f = eng.uf('spent_in', RefS, InS, z3.IntSort(), z3.BoolSort())
+    w = eng.uf('spent_wit', RefS, InS, z3.IntSort(), z3.IntSort())
+    rt, st_, nt = eng.term(r, CLS('OutputReference'), st), eng.term(ins, LIST(CLS('Input')), st), eng.term(n, INT, st)
+    return V(z3.Implies(z3.And(nt >= 0, nt <= z3.Length(st_), f(rt, st_, nt)),
+                        z3.And(0 <= w(rt, st_, nt), w(rt, st_, nt) < nt, Inp.acc['output_reference'](st_[w(rt, st_, nt)]) == rt)), BOOL)
+
+
+@GH.ghost('cum_subsidy')
+def cum_subsidy(eng, st, h):
+    """cumulative subsidy of heights 0..h in closed form: full eras below h's era, plus the started part of h's era"""
+    tab = era_table()
+    I = DOC_HALVING_INTERVAL
+    ht = eng.term(h, INT)
+    e = ht / I
+    r = z3.IntVal(I * sum(tab))           # eras beyond the table contribute nothing
+    for k in range(len(tab) - 1, -1, -1):
+        r = z3.If(e == k, z3.IntVal(I * sum(tab[:k])) + (ht - k * I + 1) * tab[k], r)
+    return V(r, INT)
+
+
+@GH.ghost('encodable')
+def encodable(eng, st, block):
+    """A-ENC: Block.serialize() returns only if every field fits its wire format; here: every output value fits 8 bytes
+    unsigned (struct.pack('>Q') raises otherwise).  Codec obligations are C07."""
+    from pyvc.types import to_sort
+    BS = to_sort(CLS('Block'), eng.reg)
+    f = eng.uf('encodable', BS, z3.BoolSort())
+    return V(f(eng.term(block, CLS('Block'), st)), BOOL)
+
+
+@GH.ghost('encodable_any')
+def encodable_any(eng, st, obj):
+    """what a normal return of serialize() tells about the receiver: for a Block, G.encodable(block); else nothing"""
+    if isinstance(obj, V) and obj.ty.kind == 'cls' and eng.reg.root_of(obj.ty.args[0]) == 'Block':
+        return encodable(eng, st, obj)
+    return V(z3.BoolVal(True), BOOL)
+
+
+@GH.ghost('encodable_fact')
+def encodable_fact(eng, st, block, m, k):
+    """instance of A-ENC at transaction m, output k of the block"""
+    (s1, val), = list(eng.ev(__import__('ast').parse("block.transactions[m].outputs[k].value", mode='eval').body,
+                             _with(eng, st, block=block, m=m, k=k)))
+    enc = encodable(eng, st, block).t
+    mt, kt = eng.term(m, INT), eng.term(k, INT)
+    return V(z3.Implies(enc, z3.And(val.t >= 0, val.t < 2 ** 64)), BOOL)
+
+
+def _with(eng, st, **names):
+    from pyvc.engine import Frame
+    sub = st.fork()
+    sub.spec = True
+    sub.stack.append(Frame(dict(names), len(sub.stack) - 1, sub.frame.globs, sub.frame.qualname))
+    return sub
+_pred('block_fees_ok', [LIST(CLS('Transaction')), MAP(CLS('OutputReference'), CLS('Output'))])
